@@ -456,10 +456,12 @@ class AddonManager:
             # RLV-style OwnerSay?
             if RLVParser.is_rlv_message(message):
                 # RLV allows putting multiple commands into one message, blindly splitting on ",".
-                all_cmds_handled = True
                 chat: str = str(message["ChatData"]["Message"])
                 source = message["ChatData"]["SourceID"]
-                for command in RLVParser.parse_chat(chat):
+                commands = RLVParser.parse_chat(chat)
+                # A bare "@" has no commands in it, nobody handled anything in that case
+                all_cmds_handled = bool(commands)
+                for command in commands:
                     try:
                         with addon_ctx.push(session, region):
                             handled = cls._call_all_addon_hooks(
